@@ -152,6 +152,7 @@ func TestVerifMetadataRealRestart(t *testing.T) {
 					Mode: "replay", Sref: v06Ref{Live: []string{}, Frozen: map[string][]v06Proto{}, Heads: map[string]v06Head{}, Groups: map[string]v06SnapGroup{}}}
 				for _, g := range r.groupIDs {
 					st.Groups[g] = v12Group{}
+					st.Grec[g] = false
 				}
 				tw.Emit(v06Event{T: b.ID, A: "Restart", Args: map[string]interface{}{}, St: st,
 					Other: v06Other{Streams: st.Streams, Groups: st.Groups}, Obs: v06Obs{A: "Restart"}})
